@@ -160,3 +160,232 @@ theorem fp_pa_transfer (puny : Str → Str) (trie : SNode Str) (s : Bool) (u u' 
   rw [(fingerprint_pa_of_not_platform puny trie s u hu).1, (fingerprint_pa_of_not_platform puny trie s u' hu').1, h]
 
 end Ural.Props.C05
+
+/-! ## (a, continued) the string-level theorems of C04 with the option on
+
+Each `norm_*_string` of `Props/C04Whole.lean` (`platform = id`) holds for
+`normalize_url(…, platform_aware=True)` when neither spelling is a facebook / youtube url
+(`NotPlatform`, decidable; for a url `http://[userinfo@]host[:port]…` it is a property of the
+host text alone: `isPlatformUrl_of_host`).  Surrounding white space / control characters need no
+such hypothesis: the cleaning pass runs before the branch (`norm_clean_string_pa`, every string,
+platform urls included). -/
+
+namespace Ural.Props.C04
+open Ural Ural.Py Ural.UrlParts Ural.Quote Ural.Canonicalize Ural.Normalize Ural.Normpath Ural.NormBridge Ural.Platform
+open Ural.Props.C05 (NotPlatform pa_transfer)
+
+/-- **control characters anywhere, white space at the ends are irrelevant with the option on, for
+every string** (facebook / youtube urls included): the branch sees the cleaned string -/
+theorem norm_clean_string_pa (puny : Str → Str) (o : Normalize.Opts) (ir : Bool) (a b : Str)
+    (h : cleanedUrl a = cleanedUrl b)
+    (hparse : parseUrl (prepared (platformConcrete puny) ir b).1 ≠ none) :
+    normalizeUrlStringPA puny o ir a = normalizeUrlStringPA puny o ir b := by
+  unfold normalizeUrlStringPA
+  rw [normalizeUrlString_eq, normalizeUrlString_eq]
+  exact norm_clean_irrelevant puny parseUrl (platformConcrete puny) o ir a b h hparse
+
+/-- **white space and control characters around the url, option on, every string** -/
+theorem norm_surrounding_ws_string_pa (puny : Str → Str) (o : Normalize.Opts) (ir : Bool) (w1 w2 s : Str)
+    (h1 : w1.all isSurrounding = true) (h2 : w2.all isSurrounding = true)
+    (hparse : parseUrl (prepared (platformConcrete puny) ir s).1 ≠ none) :
+    normalizeUrlStringPA puny o ir (w1 ++ s ++ w2) = normalizeUrlStringPA puny o ir s := by
+  unfold normalizeUrlStringPA
+  rw [normalizeUrlString_eq, normalizeUrlString_eq]
+  exact norm_clean_irrelevant puny parseUrl (platformConcrete puny) o ir _ _ (cleanedUrl_surrounding w1 w2 s h1 h2) hparse
+
+/-- `norm_scheme_string` with `platform_aware=True`, neither spelling being a facebook / youtube url -/
+theorem norm_scheme_string_pa (puny : Str → Str) (o : Normalize.Opts) (hs : o.stripProtocol = true) (ir : Bool)
+    (g : UrlG) (P : Proto) (hg : InClass ir g) (hg' : InClass ir { g with proto := P })
+    (hport : portVal g.port ≠ none)
+    (hnp : NotPlatform puny ir g.str)
+    (hnp' : NotPlatform puny ir ({ g with proto := P } : UrlG).str) :
+    normalizeUrlStringPA puny o ir ({ g with proto := P } : UrlG).str =
+      normalizeUrlStringPA puny o ir g.str :=
+  pa_transfer puny o ir _ _ hnp hnp'
+    (norm_scheme_string puny o hs ir g P hg hg' hport)
+
+/-- `norm_userinfo_string` with `platform_aware=True`, neither spelling being a facebook / youtube url -/
+theorem norm_userinfo_string_pa (puny : Str → Str) (o : Normalize.Opts) (hs : o.stripAuthentication = true)
+    (ir : Bool) (g : UrlG) (ui' : Option Str) (hg : InClass ir g)
+    (hg' : InClass ir { g with ui := ui' }) (hport : portVal g.port ≠ none)
+    (hnp : NotPlatform puny ir g.str)
+    (hnp' : NotPlatform puny ir ({ g with ui := ui' } : UrlG).str) :
+    normalizeUrlStringPA puny o ir ({ g with ui := ui' } : UrlG).str =
+      normalizeUrlStringPA puny o ir g.str :=
+  pa_transfer puny o ir _ _ hnp hnp'
+    (norm_userinfo_string puny o hs ir g ui' hg hg' hport)
+
+/-- `norm_default_port_string` with `platform_aware=True`, neither spelling being a facebook / youtube url -/
+theorem norm_default_port_string_pa (puny : Str → Str) (o : Normalize.Opts) (ir : Bool) (g : UrlG) (p : Str)
+    (n : Nat) (hn : n = 80 ∨ n = 443) (hp : portVal (some p) = some (some n))
+    (hbase : portVal g.port = some none)
+    (hg : InClass ir g) (hg' : InClass ir { g with port := some p })
+    (hnp : NotPlatform puny ir g.str)
+    (hnp' : NotPlatform puny ir ({ g with port := some p } : UrlG).str) :
+    normalizeUrlStringPA puny o ir ({ g with port := some p } : UrlG).str =
+      normalizeUrlStringPA puny o ir g.str :=
+  pa_transfer puny o ir _ _ hnp hnp'
+    (norm_default_port_string puny o ir g p n hn hp hbase hg hg')
+
+/-- `norm_host_case_string` with `platform_aware=True`, neither spelling being a facebook / youtube url -/
+theorem norm_host_case_string_pa (puny : Str → Str) (o : Normalize.Opts) (ir : Bool) (g : UrlG) (h' : Str)
+    (hl : lower h' = lower g.host) (hpct : '%' ∉ g.host) (hpct' : '%' ∉ h')
+    (hg : InClass ir g) (hg' : InClass ir { g with host := h' }) (hport : portVal g.port ≠ none)
+    (hnp : NotPlatform puny ir g.str)
+    (hnp' : NotPlatform puny ir ({ g with host := h' } : UrlG).str) :
+    normalizeUrlStringPA puny o ir ({ g with host := h' } : UrlG).str =
+      normalizeUrlStringPA puny o ir g.str :=
+  pa_transfer puny o ir _ _ hnp hnp'
+    (norm_host_case_string puny o ir g h' hl hpct hpct' hg hg' hport)
+
+/-- `norm_irrelevant_label_string` with `platform_aware=True`, neither spelling being a facebook / youtube url -/
+theorem norm_irrelevant_label_string_pa (puny : Str → Str) (hpl : PunyLaws puny) (o : Normalize.Opts)
+    (hs : o.stripIrrelevantSubdomains = true) (ir : Bool) (g : UrlG) (lab : Str)
+    (hne : g.host ≠ []) (hdot : '.' ∉ lab) (hlen : lab.length ≤ 6)
+    (hx : lower (lab.take 4) ≠ "xn--".toList)
+    (hlab : isIrrLabel o.normalizeAmp (lower lab) = true)
+    (hpct : '%' ∉ g.host) (hpct' : '%' ∉ lab)
+    (hg : InClass ir g) (hg' : InClass ir { g with host := lab ++ '.' :: g.host })
+    (hport : portVal g.port ≠ none)
+    (hnp : NotPlatform puny ir g.str)
+    (hnp' : NotPlatform puny ir ({ g with host := lab ++ '.' :: g.host } : UrlG).str) :
+    normalizeUrlStringPA puny o ir ({ g with host := lab ++ '.' :: g.host } : UrlG).str =
+      normalizeUrlStringPA puny o ir g.str :=
+  pa_transfer puny o ir _ _ hnp hnp'
+    (norm_irrelevant_label_string puny hpl o hs ir g lab hne hdot hlen hx hlab hpct hpct' hg hg' hport)
+
+/-- `norm_trailing_slash_string` with `platform_aware=True`, neither spelling being a facebook / youtube url -/
+theorem norm_trailing_slash_string_pa (puny : Str → Str) (o : Normalize.Opts) (hl : o.lowercase = false)
+    (hts : o.stripTrailingSlash = true) (ir : Bool) (g : UrlG)
+    (hg : InClass ir g) (hg' : InClass ir { g with path := g.path ++ ['/'] })
+    (hport : portVal g.port ≠ none)
+    (hnp : NotPlatform puny ir g.str)
+    (hnp' : NotPlatform puny ir ({ g with path := g.path ++ ['/'] } : UrlG).str) :
+    normalizeUrlStringPA puny o ir ({ g with path := g.path ++ ['/'] } : UrlG).str =
+      normalizeUrlStringPA puny o ir g.str :=
+  pa_transfer puny o ir _ _ hnp hnp'
+    (norm_trailing_slash_string puny o hl hts ir g hg hg' hport)
+
+/-- `norm_index_string` with `platform_aware=True`, neither spelling being a facebook / youtube url -/
+theorem norm_index_string_pa (puny : Str → Str) (o : Normalize.Opts) (hl : o.lowercase = false)
+    (hts : o.stripTrailingSlash = true) (hi : o.stripIndex = true) (ir : Bool) (g : UrlG)
+    (name : Str) (hn : '/' ∉ unquotePath name)
+    (hroot : splitextRoot (unquotePath name) = "index".toList ∨
+      splitextRoot (unquotePath name) = "default".toList)
+    (hnamp : o.normalizeAmp = true → ampSuffixSubFrom (unquotePath name) true 0 = unquotePath name)
+    (hbamp : o.normalizeAmp = true →
+      ampSuffixSub (resolveUnquoted true (unquotePath g.path)) = resolveUnquoted true (unquotePath g.path))
+    (hbidx : stripIndex (resolveUnquoted true (unquotePath g.path)) =
+      resolveUnquoted true (unquotePath g.path))
+    (hg : InClass ir g) (hg' : InClass ir { g with path := g.path ++ '/' :: name })
+    (hport : portVal g.port ≠ none)
+    (hnp : NotPlatform puny ir g.str)
+    (hnp' : NotPlatform puny ir ({ g with path := g.path ++ '/' :: name } : UrlG).str) :
+    normalizeUrlStringPA puny o ir ({ g with path := g.path ++ '/' :: name } : UrlG).str =
+      normalizeUrlStringPA puny o ir g.str :=
+  pa_transfer puny o ir _ _ hnp hnp'
+    (norm_index_string puny o hl hts hi ir g name hn hroot hnamp hbamp hbidx hg hg' hport)
+
+/-- `norm_fragment_string` with `platform_aware=True`, neither spelling being a facebook / youtube url -/
+theorem norm_fragment_string_pa (puny : Str → Str) (o : Normalize.Opts) (hl : o.lowercase = false) (ir : Bool)
+    (g : UrlG) (f' : Option Str) (hf : DroppedFragment o g.fragment) (hf' : DroppedFragment o f')
+    (hg : InClass ir g) (hg' : InClass ir { g with fragment := f' })
+    (hport : portVal g.port ≠ none)
+    (hnp : NotPlatform puny ir g.str)
+    (hnp' : NotPlatform puny ir ({ g with fragment := f' } : UrlG).str) :
+    normalizeUrlStringPA puny o ir ({ g with fragment := f' } : UrlG).str =
+      normalizeUrlStringPA puny o ir g.str :=
+  pa_transfer puny o ir _ _ hnp hnp'
+    (norm_fragment_string puny o hl ir g f' hf hf' hg hg' hport)
+
+/-- `norm_tracking_item_string` with `platform_aware=True`, neither spelling being a facebook / youtube url -/
+theorem norm_tracking_item_string_pa (puny : Str → Str) (o : Normalize.Opts) (hl : o.lowercase = false)
+    (hts : o.stripTrailingSlash = true) (ir : Bool) (g : UrlG) (r0 : Str) (R1 R2 : List Str) (t : Str)
+    (hq : g.query = some (join ['&'] (r0 :: R1 ++ R2)))
+    (hR : ∀ r ∈ r0 :: R1 ++ t :: R2, '&' ∉ r)
+    (hx : keepItem o (hostKey puny g.hostname) (seenAt o (unqItem (cutFirst '=' t))) = false)
+    (hg : InClass ir g)
+    (hg' : InClass ir { g with query := some (join ['&'] (r0 :: R1 ++ t :: R2)) })
+    (hport : portVal g.port ≠ none)
+    (hnp : NotPlatform puny ir g.str)
+    (hnp' : NotPlatform puny ir ({ g with query := some (join ['&'] (r0 :: R1 ++ t :: R2)) } : UrlG).str) :
+    normalizeUrlStringPA puny o ir ({ g with query := some (join ['&'] (r0 :: R1 ++ t :: R2)) } : UrlG).str =
+      normalizeUrlStringPA puny o ir g.str :=
+  pa_transfer puny o ir _ _ hnp hnp'
+    (norm_tracking_item_string puny o hl hts ir g r0 R1 R2 t hq hR hx hg hg' hport)
+
+/-- `norm_query_permutation_string` with `platform_aware=True`, neither spelling being a facebook / youtube url -/
+theorem norm_query_permutation_string_pa (puny : Str → Str) (o : Normalize.Opts) (hl : o.lowercase = false)
+    (hts : o.stripTrailingSlash = true) (hs : o.sortQuery = true) (ir : Bool) (g : UrlG)
+    (q q' : Str) (hq : g.query = some q) (hperm : (decoded q').Perm (decoded q))
+    (hamp : o.fixCommonMistakes = true →
+      ∀ kv ∈ decoded q', dropAmp (serializeItem kv) = serializeItem kv)
+    (hg : InClass ir g) (hg' : InClass ir { g with query := some q' })
+    (hport : portVal g.port ≠ none)
+    (hnp : NotPlatform puny ir g.str)
+    (hnp' : NotPlatform puny ir ({ g with query := some q' } : UrlG).str) :
+    normalizeUrlStringPA puny o ir ({ g with query := some q' } : UrlG).str =
+      normalizeUrlStringPA puny o ir g.str :=
+  pa_transfer puny o ir _ _ hnp hnp'
+    (norm_query_permutation_string puny o hl hts hs ir g q q' hq hperm hamp hg hg' hport)
+
+/-- `norm_amp_semicolon_string_partial` with `platform_aware=True`, neither spelling being a facebook / youtube url -/
+theorem norm_amp_semicolon_string_partial_pa (puny : Str → Str) (o : Normalize.Opts) (hl : o.lowercase = false)
+    (hts : o.stripTrailingSlash = true) (hf : o.fixCommonMistakes = true) (ir : Bool) (g : UrlG)
+    (q q' : Str) (hq : g.query = some q) (a : QItem) (L1 L2 : List QItem) (x y : QItem)
+    (hd' : decoded q' = a :: L1 ++ y :: L2) (hd : decoded q = a :: L1 ++ x :: L2)
+    (hy : ampRest (serializeItem y) = some (serializeItem x))
+    (hx : dropAmp (serializeItem x) = serializeItem x)
+    (hg : InClass ir g) (hg' : InClass ir { g with query := some q' })
+    (hport : portVal g.port ≠ none)
+    (hnp : NotPlatform puny ir g.str)
+    (hnp' : NotPlatform puny ir ({ g with query := some q' } : UrlG).str) :
+    normalizeUrlStringPA puny o ir ({ g with query := some q' } : UrlG).str =
+      normalizeUrlStringPA puny o ir g.str :=
+  pa_transfer puny o ir _ _ hnp hnp'
+    (norm_amp_semicolon_string_partial puny o hl hts hf ir g q q' hq a L1 L2 x y hd' hd hy hx hg hg' hport)
+
+/-- `norm_tracking_item_first_string` with `platform_aware=True`, neither spelling being a facebook / youtube url -/
+theorem norm_tracking_item_first_string_pa (puny : Str → Str) (o : Normalize.Opts) (hl : o.lowercase = false)
+    (hts : o.stripTrailingSlash = true) (ir : Bool) (g : UrlG) (q q' : Str) (b : QItem) (L2 : List QItem)
+    (x : QItem) (hqg : g.query = some q')
+    (hq : decoded q = x :: b :: L2) (hq' : decoded q' = b :: L2)
+    (hb : o.fixCommonMistakes = true → dropAmp (serializeItem b) = serializeItem b)
+    (hx : keepItem o (hostKey puny g.hostname) (if o.fixCommonMistakes then seenHead x else x) = false)
+    (hg : InClass ir g) (hg' : InClass ir { g with query := some q }) (hport : portVal g.port ≠ none)
+    (hnp : NotPlatform puny ir g.str)
+    (hnp' : NotPlatform puny ir ({ g with query := some q } : UrlG).str) :
+    normalizeUrlStringPA puny o ir ({ g with query := some q } : UrlG).str =
+      normalizeUrlStringPA puny o ir g.str :=
+  pa_transfer puny o ir _ _ hnp hnp'
+    (norm_tracking_item_first_string puny o hl hts ir g q q' b L2 x hqg hq hq' hb hx hg hg' hport)
+
+/-- `norm_tracking_item_alone_string` with `platform_aware=True`, neither spelling being a facebook / youtube url -/
+theorem norm_tracking_item_alone_string_pa (puny : Str → Str) (o : Normalize.Opts) (hl : o.lowercase = false)
+    (hts : o.stripTrailingSlash = true) (ir : Bool) (g : UrlG) (q : Str) (x : QItem)
+    (hqg : g.query.getD [] = []) (hq : decoded q = [x])
+    (hx : keepItem o (hostKey puny g.hostname) (if o.fixCommonMistakes then seenHead x else x) = false)
+    (hg : InClass ir g) (hg' : InClass ir { g with query := some q }) (hport : portVal g.port ≠ none)
+    (hnp : NotPlatform puny ir g.str)
+    (hnp' : NotPlatform puny ir ({ g with query := some q } : UrlG).str) :
+    normalizeUrlStringPA puny o ir ({ g with query := some q } : UrlG).str =
+      normalizeUrlStringPA puny o ir g.str :=
+  pa_transfer puny o ir _ _ hnp hnp'
+    (norm_tracking_item_alone_string puny o hl hts ir g q x hqg hq hx hg hg' hport)
+
+/-- `norm_escape_spelling_string` with `platform_aware=True`, neither spelling being a facebook / youtube url -/
+theorem norm_escape_spelling_string_pa (puny : Str → Str) (o : Normalize.Opts) (hl : o.lowercase = false)
+    (hts : o.stripTrailingSlash = true) (ir : Bool) (g : UrlG) (path' : Str) (Q' F' : Option Str)
+    (hpath : unquotePath path' = unquotePath g.path)
+    (hq : decoded (Q'.getD []) = decoded (g.query.getD []))
+    (hf : unquoteFragment (F'.getD []) = unquoteFragment (g.fragment.getD []))
+    (hg : InClass ir g) (hg' : InClass ir { g with path := path', query := Q', fragment := F' })
+    (hport : portVal g.port ≠ none)
+    (hnp : NotPlatform puny ir g.str)
+    (hnp' : NotPlatform puny ir ({ g with path := path', query := Q', fragment := F' } : UrlG).str) :
+    normalizeUrlStringPA puny o ir ({ g with path := path', query := Q', fragment := F' } : UrlG).str =
+      normalizeUrlStringPA puny o ir g.str :=
+  pa_transfer puny o ir _ _ hnp hnp'
+    (norm_escape_spelling_string puny o hl hts ir g path' Q' F' hpath hq hf hg hg' hport)
+
+end Ural.Props.C04
